@@ -800,6 +800,8 @@ class StreamThreshold(CountMinSketch):
         res = super().add_alt(hashes, num_els)
         if res >= self.__threshold:
             self.__meets_threshold[key] = res
+        else:
+            self.__meets_threshold.pop(key, None)
         return res
 
     def remove(self, key: str, num_els: int = 1) -> int:  # type: ignore
